@@ -386,6 +386,8 @@ def guarded(fn, args):
     except MemoryError:
         return {"inconclusive": ["task exceeded its memory cap (VERIF_TASK_MEM_GB)"]}
     except Exception as e:  # noqa: BLE001
+        if "out of memory" in repr(e):
+            return {"inconclusive": ["task exceeded its memory cap inside the solver (VERIF_TASK_MEM_GB): %r" % (e,)]}
         return {"harness_errors": ["%r\n%s" % (e, traceback.format_exc()[-3000:])]}
 
 
@@ -400,14 +402,14 @@ def _invoke(modname, fname, args):
     return guarded(fn, args)
 
 
-def _child(modname, fname, args, path):
+def _child(modname, fname, args, path, mem_gb=None):
     import pickle
     import resource
 
     # address-space cap per task: a task that runs away ends in MemoryError (reported as a harness
     # error / inconclusive for that task) instead of taking its siblings down with the OOM killer
     try:
-        cap = int(float(os.environ.get("VERIF_TASK_MEM_GB", "9")) * 2**30)
+        cap = int(float(mem_gb or os.environ.get("VERIF_TASK_MEM_GB", "9")) * 2**30)
         resource.setrlimit(resource.RLIMIT_AS, (cap, cap))
     except Exception:
         pass
@@ -418,7 +420,7 @@ def _child(modname, fname, args, path):
     os.replace(tmp, path)
 
 
-def run_named_tasks(modname, tasks, procs=None, task_timeout=None):
+def run_named_tasks(modname, tasks, procs=None, task_timeout=None, heavy=None):
     """tasks: [(function name, args tuple)] all in module modname.  One forked process per task,
     at most `procs` at a time, each with a wall-clock limit; a task whose process dies or runs
     out of time yields an 'inconclusive' result (never a pass)."""
@@ -437,22 +439,38 @@ def run_named_tasks(modname, tasks, procs=None, task_timeout=None):
     d = tempfile.mkdtemp(prefix="verif_tasks_", dir="/var/tmp")
     results = [None] * len(tasks)
     running = {}
-    nxt = 0
+    # heavy: set of task indices known to need much memory: at most VERIF_HEAVY_SLOTS of them run
+    # at a time, each with the larger address-space cap VERIF_TASK_MEM_GB_HEAVY
+    heavy = set(heavy or ())
+    heavy_slots = int(os.environ.get("VERIF_HEAVY_SLOTS", "3"))
+    heavy_gb = os.environ.get("VERIF_TASK_MEM_GB_HEAVY", "14")
+    pending = list(range(len(tasks)))
     try:
-        while nxt < len(tasks) or running:
-            while nxt < len(tasks) and len(running) < procs:
+        while pending or running:
+            while pending and len(running) < procs:
+                nheavy = sum(1 for i in running if i in heavy)
+                nxt = None
+                for i in pending:
+                    if i not in heavy or nheavy < heavy_slots:
+                        nxt = i
+                        break
+                if nxt is None:
+                    break
+                pending.remove(nxt)
                 f, a = tasks[nxt]
                 path = os.path.join(d, "%d.pkl" % nxt)
-                p = ctx.Process(target=_child, args=(modname, f, a, path))
+                p = ctx.Process(target=_child, args=(modname, f, a, path, heavy_gb if nxt in heavy else None))
                 p.start()
                 running[nxt] = (p, path, time.time())
-                nxt += 1
             time.sleep(0.05)
             for i in list(running):
                 p, path, t0 = running[i]
                 if os.path.exists(path):
                     with open(path, "rb") as fh:
                         results[i] = pickle.load(fh)
+                    for key in ("inconclusive", "harness_errors"):
+                        if results[i].get(key):
+                            results[i][key] = ["task %s%r: %s" % (tasks[i][0], tasks[i][1], x) for x in results[i][key]]
                     p.join(5)
                     del running[i]
                 elif not p.is_alive():
@@ -473,9 +491,9 @@ def run_named_tasks(modname, tasks, procs=None, task_timeout=None):
     return results
 
 
-def run_tasks(fn, tasks, procs=None):
+def run_tasks(fn, tasks, procs=None, heavy=None):
     """run fn over tasks in worker processes; returns list of results in task order"""
-    return run_named_tasks(fn.__module__, [(fn.__name__, t) for t in tasks], procs)
+    return run_named_tasks(fn.__module__, [(fn.__name__, t) for t in tasks], procs, heavy=heavy)
 
 
 # -------------------------------------------------------------------------------------------------
